@@ -2,8 +2,10 @@ import Bch.Generated.Facts
 /-
 State-footprint tie (Merkle).
 The model of this source group carries exactly the state listed here from one call to the next. The lists are
-re-extracted from /repo's current source by `harness facts` (go/ast): the field types of every struct declared in
-the group (names dropped, sorted) and the types of the package-level variables some function may modify.
+re-extracted from /repo's current source by `harness facts` (go/ast): the field types of every exported struct type of
+the group and of the package structs reachable from its fields (names dropped; each field reduced to its
+shape - named / pointer / slice / array / map - so that a change of representation of the same piece of state
+does not count, a new field does; unexported per-call helper records are not state) and the types of the package-level variables some function may modify.
 New state (a cache field, a pooled buffer, a memo variable) is state the model does not have: the theorems of the
 properties resting on this model then no longer speak for the code until the model is extended.
 -/
@@ -11,8 +13,8 @@ namespace Bch.Tie.StateMerkle
 
 /-- merkleblock: the encoder and decoder work structs; no modifiable package state -/
 theorem tie_state_structs : Generated.stateMerkleStructs =
-    [["[]*chainhash.Hash", "[]*chainhash.Hash", "[]byte", "[]byte", "uint32"],
-    ["[]*chainhash.Hash", "[]*chainhash.Hash", "[]byte", "[]uint32", "bool", "uint32", "uint32", "uint32"]] := by decide +kernel
+    [["named", "named", "named", "named", "slice", "slice", "slice", "slice"],
+    ["named", "slice", "slice", "slice", "slice"]] := by decide +kernel
 
 theorem tie_state_globals : Generated.stateMerkleGlobals = [] := by decide +kernel
 
